@@ -200,7 +200,7 @@ def cmd_setup():
 # --------------------------------------------------------------------------- crash classification
 SAN_RE = re.compile(r"ERROR: AddressSanitizer: ([a-zA-Z0-9_-]+)")
 UB_RE = re.compile(r"^(\S+?):(\d+):(\d+): runtime error: (.*)$", re.M)
-ASSERT_RE = re.compile(r"^\S*?([^/\s:]+):\d+: (.*?): Assertion `(.*)' failed", re.M)
+ASSERT_RE = re.compile(r"^(?:\S+: )?(?:\S*/)?([^/\s:]+):\d+: (.*?): Assertion `(.*)' failed", re.M)
 GLIBCXX_RE = re.compile(r"^(/usr/include\S+):\d+: (.*?): Assertion '(.*)' failed", re.M)
 FRAME_RE = re.compile(r"^\s*#\d+ 0x[0-9a-f]+ in (.+?) (/\S+?):(\d+)", re.M)
 
